@@ -361,8 +361,14 @@ def _fourier_cases(draw):
         npts = k * q
     else:
         npts = draw(st.one_of(st.integers(nmin, min(cap, nmin + 12)), st.integers(nmin, cap)))
-    return {"npts": npts, "dt": dt, "target": target, "even": draw(_BOOL), "comps": draw(_COMPS), "form": draw(_FORM),
+    case = {"npts": npts, "dt": dt, "target": target, "even": draw(_BOOL), "comps": draw(_COMPS), "form": draw(_FORM),
             "fam": p["fam"]}
+    if mode == "refine" and draw(st.integers(0, 3)) == 0:
+        # a component exactly at the OLD Nyquist harmonic npts/2 (even npts), in cosine phase: x_i = c*(-1)^i.  It is periodic over
+        # the record and below the new Nyquist frequency (the step is refined), so the statement covers it
+        case["npts"] = npts + npts % 2
+        case["nyq"] = [draw(gen.scalars(1e-3, 1e3)), draw(st.sampled_from([0.0, 3.141592653589793]))]
+    return case
 
 
 def _band_limit(npts, dt, target):
@@ -421,6 +427,10 @@ def fourier_rule(case, ctx):
         raise HarnessError("no admissible oscillating component (cannot happen under the duration precondition)")
     # first component: m in 1..M (a genuine oscillation); further components: m in 0..M (0 = constant offset)
     m_list = [min(big_m, (1 + int(mu * big_m)) if j == 0 else int(mu * (big_m + 1))) for j, (mu, c, phi) in enumerate(comps)]
+    if case.get("nyq") and npts % 2 == 0 and Fraction(target) < Fraction(dt):
+        comps = list(comps) + [[1.0, case["nyq"][0], case["nyq"][1]]]
+        m_list = m_list + [npts // 2]
+        ctx.cls("old-nyquist-component")
     x = np.asarray(_tones_exact_grid(comps, m_list, npts), dtype=float)
     csum = float(sum(abs(c) for mu, c, phi in comps))
     asig = ctx.lib(eqsig.AccSignal, x, dt)
